@@ -130,11 +130,13 @@ func genWith(o gen.Options, ext string) func(rt *rapid.T) Case {
 
 var chkMain = pbt.Check[Case]{Name: "record-roundtrip", Eval: eval, Gen: genWith(gen.Options{Unbuffered: true}, "")}
 var chkBig = pbt.Check[Case]{Name: "record-roundtrip-pending-limit", Eval: eval, Gen: genWith(gen.Options{Unbuffered: true, BigPending: true}, "")}
+var chkHeavy = pbt.Check[Case]{Name: "record-roundtrip-consumed-plus-pending", Eval: eval, Gen: genWith(gen.Options{Unbuffered: true, HeavyWriter: true}, "")}
 var chkSub = pbt.Check[Case]{Name: "record-roundtrip-ext-subsec", Eval: eval, Gen: genWith(gen.Options{Unbuffered: true, ExtSubSecDigits: true}, "subsec-digits")}
 
 func init() {
 	pbt.Register(chkMain)
 	pbt.Register(chkBig)
+	pbt.Register(chkHeavy)
 	pbt.Register(chkSub)
 }
 
@@ -153,6 +155,9 @@ func TestProp(t *testing.T) {
 		return
 	}
 	if !pbt.Run(t, rec, chkBig, rec.Env.Pick(300, 6000), 2) {
+		return
+	}
+	if !pbt.Run(t, rec, chkHeavy, rec.Env.Pick(300, 6000), 4) {
 		return
 	}
 	pbt.Run(t, rec, chkSub, rec.Env.Pick(300, 3000), 3)
